@@ -313,6 +313,33 @@ def s_split(vc):
         vc.ensure("error.only_without_valid_prefix", Or(j < 0, Not(nonempty_digits(vc, sl(vc, data, 0, j)))))
 
 
+def split_by_contract(vc):
+    """tnetstring.split replaced by its contract (scenario `split`): split at the FIRST ':'; a non-empty decimal prefix is
+    always accepted with its decimal value; any other prefix is rejected with ValueError or (Python int() leniency)
+    accepted with an unspecified value; no ':' -> ValueError."""
+    from mitmproxy.io import tnetstring
+    real = tnetstring.split
+    k = [0]
+
+    def f(v, data, sep):
+        if v.mode == "native":
+            return real(data, sep)
+        j = index_of(v, data, b":")
+        if v.branch(j < 0):
+            raise_(v, ValueError, "not a tnetstring: missing or invalid length prefix")
+        prefix = sl(v, data, 0, j)
+        rest = sl(v, data, j + 1, len_(data))
+        if v.branch(nonempty_digits(v, prefix)):
+            v.assume(to_int(v, prefix) >= 0)       # valid lemma: value of a non-empty digit string
+            return STuple([to_int(v, prefix), rest])
+        k[0] += 1
+        if v.branch(v.sym_bool(f"lenient_int_accepts{k[0]}")):
+            return STuple([v.sym_int(f"lenient_int_value{k[0]}"), rest])
+        raise_(v, ValueError, "not a tnetstring: missing or invalid length prefix")
+
+    vc.summary(TN + ":split", f)
+
+
 def parse_ghost(calls):
     def f(vc, data_type, data):
         data = data if is_sym(data) else bytes(data)
@@ -321,14 +348,14 @@ def parse_ghost(calls):
     return f
 
 
-@scenario("pop.framing", functions=[TN + ":pop", TN + ":split"], pc_slices=True)
+@scenario("pop.framing", functions=[TN + ":pop"], pc_slices=True)
 def s_pop(vc):
     """pop(data) with parse abstracted: for data = DIGITS ":" PAYLOAD TAG REST it parses exactly (TAG, PAYLOAD) and returns
     REST untouched; if PAYLOAD/TAG are not completely there it raises ValueError; nothing but ValueError is raised."""
     data = vc.sym_bytes("buf")
     calls = []
     vc.summary(TN + ":parse", parse_ghost(calls))
-    vc.invariant(TN + ":split", 1, inv_split(vc))
+    split_by_contract(vc)
     out = vc.call(TN + ":pop", data)
     vc.ensure("raises_only_valueerror", out.ok or out.raised_type() is ValueError)
     vc.ensure("parse_at_most_once", len(calls) <= 1)
@@ -350,7 +377,7 @@ def s_pop(vc):
     vc.ensure("complete.tag", tag == code_at(data, j + 1 + n))
     res = out.result
     vc.ensure("complete.rest_untouched", res[1] == sl(vc, data, j + 2 + n, L))
-    vc.ensure("complete.value_is_parse_result", is_ghost(res[0], "parsed") and res[0][1] == tag and res[0][2] == payload)
+    vc.ensure("complete.value_is_parse_result", And(is_ghost(res[0], "parsed"), res[0][1] == tag, res[0][2] == payload))
 
 
 TAGS = {",": 44, ";": 59, "#": 35, "^": 94, "!": 33, "~": 126}
@@ -427,19 +454,22 @@ def s_parse_containers(vc):
         vc.ensure("returns_container", isa(out.result, list) if tag == 93 else isa(out.result, dict))
 
 
-@scenario("roundtrip.scalars", functions=[TN + ":loads", TN + ":dumps", TN + ":pop", TN + ":split", TN + ":parse", TN + ":_rdumpq"], pc_slices=True)
+@scenario("roundtrip.scalars", functions=[TN + ":loads", TN + ":dumps", TN + ":pop", TN + ":parse", TN + ":_rdumpq"], pc_slices=True)
 def s_roundtrip(vc):
     kind = vc.case("type", SCALARS)
     v = mk_scalar(vc, kind, "v")
     if kind == "int":
         vc.assume(v >= 0)          # negative ints: T2 (their decimal text goes through the uninterpreted part of int())
+        if vc.mode == "sym":
+            vc.assume(nonempty_digits(vc, int_text(vc, v)))    # valid lemma: the decimal text of n >= 0 is a non-empty digit string
+            vc.note("lemma", "str(n) for n >= 0 is a non-empty ASCII digit string")
     if kind == "str":
         vc.assume(encodable(vc, v))
     o1 = vc.call(TN + ":dumps", v)
     vc.ensure("dumps.no_exception", o1.ok)
     if not o1.ok:
         return
-    vc.invariant(TN + ":split", 1, inv_split(vc))
+    split_by_contract(vc)
     o2 = vc.call(TN + ":loads", o1.result)
     vc.ensure("loads.no_exception", o2.ok)
     if not o2.ok:
